@@ -407,6 +407,7 @@ pub fn def() -> PropDef {
         needs_pairing: false,
         subs: vec![
             Box::new(crate::engine::EnumSub { name: "long-history", rule: super::longhist::RULE, run: run_long_history, replay: super::longhist::replay, exhaustive: false }),
+            Box::new(crate::engine::EnumSub { name: "two-input-bursts", rule: super::longhist::BURST_RULE, run: run_two_input_bursts, replay: super::longhist::replay_burst, exhaustive: false }),
             Box::new(Sub { name: "g1", rule: "G1 map_to_curve and map2_to_curve vs model composition", quick: 3_750, thorough: 50_000, strategy: || boxed(map_case_strategy(0)), check: check_map }),
             Box::new(Sub { name: "g2", rule: "G2 map_to_curve and map2_to_curve vs model composition", quick: 1_000, thorough: 12_000, strategy: || boxed(map_case_strategy(1)), check: check_map }),
             Box::new(Sub { name: "related-sequences", rule: "2..4 calls back to back on the same u0 with related second inputs (u0, -u0, constructed partners, independent), each compared with the model (no dependence on earlier calls)", quick: 300, thorough: 8_000, strategy: || boxed(seq_strategy()), check: check_seq }),
